@@ -277,8 +277,8 @@ class WcMatch(Generic[AnyStr]):
                 if self.is_aborted():  # pragma: no cover
                     break
 
-            # Search files if they were found
-            if files:
+            # Search files if they were found (and the search was not aborted while filtering the folders)
+            if files and not self.is_aborted():
                 # Only search files that are in the include rules
                 for name in files:
                     try:
